@@ -33,6 +33,7 @@ CHECKS["C01"] = {
     "jobs": [
         {"test": "TestC01Replay", "kind": "plain"},
         {"test": "TestC01Text", "kind": "plain"},
+        {"test": "TestC01LateRegistration", "kind": "plain"},
         {"test": "TestC01", "kind": "rapid", "shards": 14, "checks": (5000, 60000)},
         {"test": "TestC01TextRapid", "kind": "rapid", "shards": 1, "checks": (5000, 200000)},
         {"test": "TestC01Concurrent", "kind": "plain", "shards": (2, 8), "timeout": (300, 1500), "gomaxprocs": [16, 8, 16, 4, 16, 8, 16, 4]},
@@ -193,17 +194,20 @@ CHECKS["C08"] = {
               "crash is attributed to the journalled case), established only if the server's last word was established with id/nodes adopted from it, id echo, credentials only "
               "in answer to an authentication request, connection closed after finished/failed - at whatever point of the handshake the terminal envelope comes and whether or not EstablishSession then returns an error (server staying connected). "
               "Channel buffer sizes 0, 1 and 4 are drawn; scripts that go on after establishment: once a later session envelope that is not 'established' has been taken, the channel no longer reports an established session "
-              "(judged when the unconsumed data in front of that envelope fits the buffers)."),
+              "(judged when the unconsumed data in front of that envelope fits the buffers). "
+              "The same scripts also through the high-level Client (every script of up to 2, thorough 3, symbols, and drawn ones): Client.Establish never panics - nor do the Client's own goroutines - and returns nil only when the server's last word was an established session."),
     "note": "Symbols are sent only while the client is provably waiting (synctest.Wait), so 'last word' is exact; clauses are exactly those of the statement.",
     "technique": "exhaustive depth-bounded script enumeration with dynamic pruning + rapid (stateful generation) against invariants over the observed history, in virtual time",
     "rule": ("case = (selectors, authenticator, client TLS config, server script, end). Enumeration depth 3 (quick) / 4 (thorough), a script is only extended while the client still consumes "
              "envelopes. Non-trivial: >=2 server envelopes or an out-of-order state. Distinct by SHA-1 of the case."),
     "assumptions": HANDSHAKE_ASSUMPTIONS + ["selector and authenticator callbacks are total functions (the property's precondition)"],
-    "exhaustive_jobs": ["TestC08Enum"],
+    "exhaustive_jobs": ["TestC08Enum", "TestC08ClientEnum"],
     "jobs": [
         {"test": "TestC08Replay", "kind": "plain"},
         {"test": "TestC08Enum", "kind": "plain", "shards": 12, "timeout": (400, 6000)},
         {"test": "TestC08", "kind": "rapid", "shards": 4, "checks": (2500, 80000), "timeout": (300, 3000)},
+        {"test": "TestC08ClientEnum", "kind": "plain", "shards": 4, "timeout": (300, 3000)},
+        {"test": "TestC08Client", "kind": "rapid", "shards": 4, "checks": (400, 15000), "timeout": (300, 3000)},
     ],
 }
 
@@ -422,7 +426,9 @@ CHECKS["C13"] = {
               "end is left. Client.Close also with the server's dispatch loop stuck in a handler (finishing not answered): every connection the Client dialled must be released when Close returns. "
               "TCP+TLS cases draw the protocol version (1.3 or capped at 1.2, where the peer's close notification travels as a visible alert). Plus two real-time loads over the in-process transport: "
               "48 bare client channels finishing their sessions at the same time again and again, and a server whose last word (finished session, then close) is swept in steps of a few nanoseconds across "
-              "the instant the client's receiver asks for its next envelope, right after establishment or right after a delivered message: every client reaches the finished state."),
+              "the instant the client's receiver asks for its next envelope, right after establishment or right after a delivered message: every client reaches the finished state. "
+              "Plus the high-level Client against scripted servers (every script of up to 2, thorough 3, symbols of the client-handshake alphabet and drawn ones, a third of them announcing the established session early): "
+              "when the handshake in progress has taken an established session, then after Client.Close the Client's end of the connection is closed and no library goroutine is left, whatever Establish returned."),
     "note": "Schedules are sampled; the terminating call's own return value is not judged (under TLS it can report a close_notify write error after a clean finish). Server-side transports are only visible on in-memory connections.",
     "technique": "property-based testing (rapid) over (initiator, moment, transport, buffers, wiring) with state / stream-closure / goroutine-census oracles; virtual time plus real sockets",
     "rule": "case = (transport, wiring, initiator, buffers, traffic counts, termination moment). Non-trivial: termination with traffic still to be sent, or initiated by the server side, or buffer 0. Distinct by SHA-1 of the case.",
@@ -431,6 +437,8 @@ CHECKS["C13"] = {
         {"test": "TestC13Replay", "kind": "plain"},
         {"test": "TestC13FinishStress", "kind": "plain", "shards": (3, 8), "timeout": (300, 1500), "gomaxprocs": [16, 8, 4, 16, 8, 4, 16, 2]},
         {"test": "TestC13LastWordRace", "kind": "plain", "shards": (3, 8), "timeout": (300, 1500), "gomaxprocs": [16, 8, 4, 16, 8, 4, 16, 2]},
+        {"test": "TestC13ClientScriptsEnum", "kind": "plain", "shards": 4, "timeout": (300, 3000)},
+        {"test": "TestC13ClientScripts", "kind": "rapid", "shards": 4, "checks": (400, 15000), "timeout": (300, 3000)},
         {"test": "TestC13", "kind": "rapid", "shards": 10, "checks": (150, 6000), "timeout": (300, 3000), "gomaxprocs": [1, 2, 4, 16, 2]},
         {"test": "TestC13Real", "kind": "rapid", "shards": 4, "checks": (6, 150), "timeout": (400, 3000), "gomaxprocs": [4, 16], "shrink": (30, 90)},
     ],
